@@ -7,6 +7,8 @@ from ..suites_l0 import Registry
 from ..suites_chain import ChainBuild
 
 
+from .c13 import DataDirs      # the data directory is the first component of every location, whichever chain is built first
+
 class Sha(Suite):
     """the Gallina SHA-256 that instantiates the hash in the goldens, against hashlib"""
     name = 'sha256'
@@ -275,7 +277,7 @@ class BraceTexts(Suite):
 
 class C12(Prop):
     pid = 'C12'
-    suites = [Registry(), Keys(), Sha(), NameModeLayout(), Naming(), BraceTexts()]
+    suites = [Registry(), Keys(), Sha(), NameModeLayout(), Naming(), BraceTexts(), DataDirs()]
     trusted_base = ['SHA-256: the Gallina implementation is checked against FIPS vectors (kernel) and hashlib (correspondence)',
                     'the frozen re-implementation harness/tcv/oracle_frozen.py and the golden literals were produced at the pinned commit']
     assumptions = ['parameter mode; name mode (key = config name) is exercised by the C20 harness']
